@@ -346,6 +346,28 @@ CLAIMED["C02"] = (
     COMMON_NOTE + "mustShortTargetHash is used as a function of (state, target) at the time of the call; cache back ends are opaque.",
     "contract-based deductive verification (element-wise postcondition, ghost call history, call-site obligations + SMT)", "6/C02")
 
+CLAIMED["C23"] = (
+    "Proof of the soundness half of the level limit in `plz query deps`: a target is printed only strictly inside the limit, and every "
+    "recursive step goes exactly one level deeper except along an edge to a hidden sub-target of the same rule, which costs nothing "
+    "(call-site obligations on the recursion of deps); for somepath: the recursive search keeps the same destination, graph and bookkeeping, "
+    "and a reported path starts at the target it was asked about. The completeness half is FALSE and recorded as a known finding "
+    "(demonstrated in findings/C23: a->b->c->d->e plus a->d with --level 3 does not report e, two steps away): no obligation of deps can "
+    "express reachability within N steps over the graph. Kernel-only: revdeps and that every somepath edge is a real dependency edge are not "
+    "under contract.",
+    COMMON_NOTE + "Graph accessors are assumed pure; printing is opaque.",
+    "contract-based deductive verification (call-site obligations on a recursive function + SMT)", "6/C23")
+
+CLAIMED["C24"] = (
+    "Proof of the collection kernels of `plz query changes`: diffGraphs puts into its result every target of the after-graph that is new, "
+    "whose definition or tool paths differ (targetChanged), or any target when the configuration hash differs (loop invariant + "
+    "postcondition over all targets); in changedTargets every target of the package found for a changed file that has the file as a source "
+    "is added to the changed set, nothing is ever removed from that set, and when a level is given FindRevdeps is asked for the labels of "
+    "exactly that set to exactly that depth. Kernel-only: that the package found is the closest enclosing one, that the final "
+    "filter/sort keeps every included label, and FindRevdeps itself (transitive closure) are not under contract; `plz query changes` over "
+    "real checkouts is process-level.",
+    COMMON_NOTE + "targetChanged, HasAbsoluteSource and the graph accessors are assumed functions of their arguments.",
+    "contract-based deductive verification (loop invariants over sets-as-maps, call-site obligations + SMT)", "6/C24")
+
 NOT_APPLICABLE = {
     "C05": "liveness / whole-run exit status under all schedules: no per-call contract expresses it (safety fragment is under C04)",
     "C30": "OS process groups, signals and wall-clock bounds; goroutines and select are outside the sequential contract model",
